@@ -43,6 +43,8 @@ def synthetic(rng, text_hint, n_multi=60, maxlen=3, canonical=0, all_bytes=True,
             w = list(text_hint[i:i + rng.randint(2, maxlen + 1)])
         else:
             w = [rng.choice(alpha) for _ in range(rng.randint(2, maxlen))]
+        if rng.random() < 0.25:
+            w = w + [rng.choice(alpha)]   # a token that straddles the end of a grammar literal
         if 0xFF in w or not w:
             continue
         if tuple(w) not in seen or (dups and rng.random() < 0.15):
